@@ -93,7 +93,8 @@ SERVER_PHASES = ['P2', 'P3', 'P4', 'P4r', 'P4s']
 MODEL_PHASE = {'P4r': 'P4n', 'P4s': 'P4n'}
 
 
-def run_server_case(phase=None, pkttype=None, body=b'', second=None):
+def run_server_case(phase=None, pkttype=None, body=b'', second=None,
+                    no_strict=False, cleartext=None):
     """Standard dialogue (service request, none auth, session open, exec)
     with an optional injected packet (and optional second one) at `phase`.
     Returns dict(seen=[types], log=[...], closed=bool)."""
@@ -133,8 +134,9 @@ def run_server_case(phase=None, pkttype=None, body=b'', second=None):
         res['acc'] = await asyncssh.listen(
             '127.0.0.1', 2222, server_factory=Srv,
             server_host_keys=[hostkey()], encoding=None)
-        res['raw'] = await rawpeer.raw_connect('127.0.0.1', 2222,
-                                               hold_service=True)
+        res['raw'] = await rawpeer.raw_connect(
+            '127.0.0.1', 2222, hold_service=True, no_strict=no_strict,
+            cleartext_inject=cleartext)
 
     try:
         loop.run_until_complete(go())
